@@ -47,6 +47,11 @@ def run(ctx):
     streamed = set(order[:8]) if qk else set(order)
     byfn = {(d, k): build_record(d, k, rng, golden, problem=objs[(d, k)], stream=(d, k) in streamed) for (d, k) in order}
     recs = [byfn[f] for f in fns]
+    if qk:
+        # all other functions as light records: structure, basin inequalities, values at the minimisers, reference parameters/values
+        others = [(d, k) for d in (2, 3, 4, 5) for k in range(1, 101) if (d, k) not in byfn]
+        for (d, k) in others:
+            recs.append(build_record(d, k, rng, golden, light=True))
     recs.sort(key=lambda r: (not r["rng"]))
     k = max(1, min(16, len(recs) // 6))
     recs = [recs[i] for j in range(k) for i in range(j, len(recs), k)]     # interleave so that every TLC batch gets its share of stream checks
